@@ -3,5 +3,7 @@ CONSTANTS
   Conns = {1, 2, 3}
   Nodes = {1, 2, 3}
   MaxReq = 4
+  ChildrenMayFail = TRUE
+  ErrorCompletesParent = FALSE
   SessCap = 32
 CHECK_DEADLOCK FALSE
